@@ -281,7 +281,7 @@ def run(repo, chk):
     # ---------------------------------------------------------------- R-C08-6 reported leak demand
     # the leak row exists only for `leak_status and not _is_isolated` (R-C08-1); wherever it does not exist the reported leak demand must be
     # the constant 0 -- on EVERY path through store_results_in_network (last store wins), not the stale value of the leak-rate variable
-    from ._shared import final_stores
+    from ._shared import final_stores, forced
     sfn, rows = final_stores(repo)
     chk.fn(sfn)
     n6 = 0
@@ -290,11 +290,11 @@ def run(repo, chk):
         if ctx not in ("wn.junctions()", "wn.tanks()"):
             continue
         kind = "junction" if ctx == "wn.junctions()" else "tank"
-        iso = conds.get("node._is_isolated") if kind == "junction" else None
-        ls = conds.get("node.leak_status")
+        iso = forced("node._is_isolated", conds) if kind == "junction" else False
+        ls = forced("node.leak_status", conds)
         got = finals.get("node._leak_demand", "<not stored>")
-        if iso is True:
-            case, want = "isolated", 0
+        if iso is not False:
+            case, want = "isolated", 0           # a path an isolated junction may take
         elif ls is True:
             case, want = "connected, leak active", "m.leak_rate[name].value"
         elif ls is False:
